@@ -87,12 +87,27 @@ static void run_context(hz::Ctx &ctx, const LineCase &c, bool nested = false) {
   auto alone = al::assemble(text(c.it), c.combo);
   // the line in front of / next to text that is no code: a directive, a label or a comment behind it (also further down),
   // a comment on the line itself - with words that mean something elsewhere (section, global, register and mnemonic names)
-  { static const char *AFTER[] = {"\nsection .data\n", "\nglobal main\n", "\n; the global section follows\n", "\nnext_label:\n", " ; bump the global counter\n", " ;section\n", "\n\n\n  SECTION .text\n", " ; mov rax, rbx : x\n", "\nnop\nnop\n; see section 3\n", "\r\n%define global 1\r\n", " ; GLOBAL\n\tglobal f\n", "\n;\n", " ; gr\xc3\xb6\xc3\x9f" "er als\n", "\n; \xe2\x86\x92 next\n;\xff\n"};
-    unsigned k = (unsigned)((hz::fnv(id) >> 17) % 14); std::string t2 = text(c.it) + AFTER[k]; auto r2 = al::assemble(t2, c.combo);
-    size_t extra = k == 8 ? 2 : 0;   // two nops follow in variant 8
+  { static const char *AFTER[] = {"\nsection .data\n", "\nglobal main\n", "\n; the global section follows\n", "\nnext_label:\n", " ; bump the global counter\n", " ;section\n", "\n\n\n  SECTION .text\n", " ; mov rax, rbx : x\n", "\nnop\nnop\n; see section 3\n", "\r\n%define global 1\r\n", " ; GLOBAL\n\tglobal f\n", "\n;\n", " ; gr\xc3\xb6\xc3\x9f" "er als\n", "\n; \xe2\x86\x92 next\n;\xff\n", " ; see c:\\asm\\\nnop\nnop\n", "\n; ends in a backslash \\\nnop\nnop\n"};
+    unsigned k = (unsigned)((hz::fnv(id) >> 17) % 16); std::string t2 = text(c.it) + AFTER[k]; auto r2 = al::assemble(t2, c.combo);
+    size_t extra = (k == 8 || k == 14 || k == 15) ? 2 : 0;   // two nops follow in these variants
     ctx.cls("part:in-front-of-non-code-text");
     if (r2.rc != alone.rc || (alone.rc == 0 && (r2.bytes.size() != alone.bytes.size() + extra || memcmp(r2.bytes.data(), alone.bytes.data(), alone.bytes.size())))) {
       hz::Failure f = make_failure(c, "context-dependent", "followed by " + hz::jesc(AFTER[k]) + " the line gives rc " + std::to_string(r2.rc) + " and " + x86::hex(r2.bytes.data(), r2.bytes.size()) + " ; alone rc " + std::to_string(alone.rc) + " and " + x86::hex(alone.bytes.data(), alone.bytes.size())); f.caseid = id; f.tags.push_back("group:context"); ctx.fail(f); return; } }
+  // in front of the line: directives (whatever section they name), labels, comments - and, on another instance, a line with the same mnemonic and
+  // operands it does not take (that lookup fails; nothing of it may stick to the thread or the process)
+  { static const char *BEFORE[] = {"section .bss\n", "section .data\nglobal x\n", "SECTION .rodata\n", "lbl:\n; c\n", "\n\n", "segment .bss\n", "section .bss\nsection .text\n"};
+    unsigned k = (unsigned)((hz::fnv(id) >> 23) % 7); std::string line = text(c.it); std::string mn = line.substr(0, line.find(' '));
+    static const char *POISON[] = {" rax, 5", " 5", " rax", "", " rax, rbx, rcx", " xmm1, 5", " [rax], [rbx]", " ymm1"}; std::string poison = mn + POISON[(hz::fnv(id) >> 27) % 8];
+    al::Result pz = al::assemble(poison, c.combo); (void)pz;
+    std::string t2 = std::string(k == 5 ? "" : BEFORE[k]) + line + "\n"; auto r2 = al::assemble(t2, c.combo);
+    ctx.cls("part:behind-non-code-text-and-a-failed-lookup");
+    if (r2.rc != alone.rc || r2.bytes != alone.bytes) { hz::Failure f = make_failure(c, "context-dependent", "after a (failing) lookup of \"" + poison + "\" and behind " + hz::jesc(k == 5 ? "" : BEFORE[k]) + " the line gives rc " + std::to_string(r2.rc) + " and " + x86::hex(r2.bytes.data(), r2.bytes.size()) + " ; alone rc " + std::to_string(alone.rc) + " and " + x86::hex(alone.bytes.data(), alone.bytes.size())); f.caseid = id; f.tags.push_back("group:context"); ctx.fail(f); return; } }
+  // long runs of blanks: 2100 in front of the line, 120 and 2100 behind the mnemonic and behind the first comma
+  { unsigned k = (unsigned)((hz::fnv(id) >> 29) % 5); std::string line = text(c.it), v3; size_t sp = line.find(' '), cm = line.find(',');
+    if (k == 0) v3 = std::string(2100, ' ') + line; else if (k == 1 && sp != std::string::npos) v3 = line.substr(0, sp) + std::string(120, ' ') + line.substr(sp); else if (k == 2 && sp != std::string::npos) v3 = line.substr(0, sp) + std::string(2100, '\t') + line.substr(sp);
+    else if (k == 3 && cm != std::string::npos) v3 = line.substr(0, cm + 1) + std::string(2100, ' ') + line.substr(cm + 1); else v3 = std::string(97, ' ') + line + std::string(3000, ' ');
+    auto r3 = al::assemble(v3, c.combo); ctx.cls("part:long-blank-runs");
+    if (r3.rc != alone.rc || r3.bytes != alone.bytes) { hz::Failure f = make_failure(c, "spacing-dependent", "with a run of blanks (variant " + std::to_string(k) + ") the line gives rc " + std::to_string(r3.rc) + " and " + x86::hex(r3.bytes.data(), r3.bytes.size()) + " ; alone rc " + std::to_string(alone.rc) + " and " + x86::hex(alone.bytes.data(), alone.bytes.size())); f.caseid = id; f.tags.push_back("group:context"); ctx.fail(f); return; } }
   // the whole line in capitals (every mnemonic, register and keyword folds)
   { std::string up = text(c.it); for (auto &ch : up) ch = (char)toupper((unsigned char)ch); auto r3 = al::assemble(up, c.combo); ctx.cls("part:in-capitals");
     if (r3.rc != alone.rc || r3.bytes != alone.bytes) { hz::Failure f = make_failure(c, "case-dependent", "\"" + up + "\" gives rc " + std::to_string(r3.rc) + " and " + x86::hex(r3.bytes.data(), r3.bytes.size()) + " ; in lower case rc " + std::to_string(alone.rc) + " and " + x86::hex(alone.bytes.data(), alone.bytes.size())); f.caseid = id; f.tags.push_back("group:context"); ctx.fail(f); return; } }
@@ -264,9 +279,11 @@ static void prop_c03_exec(hz::Ctx &ctx) {
   auto sps = imm_spellings(64, 'M', rng, ctx.thorough() ? 10000 : 1500, true);
   const int regs[] = {0, 1, 2, 6, 7, 8, 9, 10, 11};
   // literals with more than 16 hex digits (leading zeros, both signs) are executed under STRICT and NASM (under SMART the digit count selects the form)
-  { size_t n0 = sps.size(); for (size_t i = 0; i < n0; i++) if (sps[i].hex && sps[i].pad == 0 && (i % 3) == 0) { ImmSp p = sps[i]; p.pad = 17 + (int)(i % 4); sps.push_back(p); } }
+  { size_t n0 = sps.size(); for (size_t i = 0; i < n0; i++) if (sps[i].hex && sps[i].pad == 0 && (i % 3) == 0) { ImmSp p = sps[i]; p.pad = 17 + (int)(i % 4); sps.push_back(p); }
+    // as many leading zeros as the line window allows ("mov rax, " leaves about 85 characters), decimal and hex
+    for (size_t i = 0; i < n0; i++) if (sps[i].pad == 0 && (i % 7) == 0) { ImmSp p = sps[i]; static const int LP[] = {40, 60, 62, 63, 64, 65, 70, 84}; p.pad = LP[i % 8]; sps.push_back(p); } }
   for (size_t i = 0; i < sps.size(); i++) for (int mode = 0; mode < 3; mode++) {
-    if (sps[i].pad > 16 && mode == 2) continue;
+    if (sps[i].hex && sps[i].pad > 16 && mode == 2) continue;
     int reg = regs[(i + mode) % 9]; int combo = mode + 3 * (int)((i >> 1) & 3);
     if (!ctx.take()) continue;
     char idb[160]; snprintf(idb, sizeof idb, "X|%d|%d|%llx|%d|%d|%d", combo, reg, (unsigned long long)sps[i].v, sps[i].neg, sps[i].hex, sps[i].pad);
